@@ -9,8 +9,9 @@
 //! are not spawned: they live in a table and are polled by the harness with a counting waker.
 //! The mock fetcher completes an invocation only when the harness opens its gate.
 //!
-//! Second tier (`mt-*`, thorough only): the same actions on an 8-worker multi-thread runtime with
-//! seeded spin perturbation; a wall-clock bound there yields INCONCLUSIVE, never a violation.
+//! Second tier (`mt-*`; `mt-spin` in both tiers, the rest thorough only): the same actions on an
+//! 8-worker multi-thread runtime with seeded spin perturbation, plus callers on own threads that
+//! busy-poll their future; a wall-clock bound there yields INCONCLUSIVE, never a violation.
 
 use std::{
     future::Future,
@@ -47,9 +48,18 @@ const NPAIRS: usize = 2;
 
 #[derive(Clone, Copy, Debug, PartialEq, Eq, Hash, Serialize, Deserialize)]
 enum Res {
+    /// 2 paths
     Ok,
     Empty,
     Err,
+    /// 32 paths (ranking and publication of the active path take longer)
+    OkMany,
+}
+
+impl Res {
+    fn has_paths(self) -> bool {
+        matches!(self, Res::Ok | Res::OkMany)
+    }
 }
 
 #[derive(Clone, Debug, PartialEq, Eq, Hash, Serialize, Deserialize)]
@@ -59,6 +69,9 @@ enum Action {
     /// `k` futures for the same pair created back to back (multi-thread tier: released together
     /// by a spin barrier)
     Burst(u8, u8),
+    /// `k` callers for the same pair that busy-poll their future instead of sleeping on the waker
+    /// (multi-thread tier: k threads with a spin executor; single-thread tier: same as `Burst`)
+    Spin(u8, u8),
     /// poll the i-th live (still pending) waiter again
     Poll(u16),
     /// drop the i-th live waiter future (cancellation of the caller)
@@ -96,7 +109,7 @@ struct Case {
 }
 
 // ---------------------------------------------------------------------------------------------
-// Fixed world: two (src,dst) pairs, two paths each, valid for 24 h from process start
+// Fixed world: two (src,dst) pairs, 32 paths each (ok = the first 2), valid for 24 h from process start
 // ---------------------------------------------------------------------------------------------
 
 struct World {
@@ -134,7 +147,10 @@ fn world() -> &'static World {
             t0,
             src,
             dst,
-            paths: [vec![mk(dst[0], 1), mk(dst[0], 2)], vec![mk(dst[1], 3), mk(dst[1], 4)]],
+            paths: [
+                (1..=32).map(|i| mk(dst[0], i)).collect(),
+                (41..=72).map(|i| mk(dst[1], i)).collect(),
+            ],
         }
     })
 }
@@ -251,7 +267,8 @@ impl Future for GateFuture {
                 drop(l);
                 self.done = true;
                 Poll::Ready(match r {
-                    Res::Ok => Ok(world().paths[pair].clone()),
+                    Res::Ok => Ok(world().paths[pair][..2].to_vec()),
+                    Res::OkMany => Ok(world().paths[pair].clone()),
                     Res::Empty => Ok(vec![]),
                     Res::Err => Err(PathFetchError::InternalError("mock fetch failed".into())),
                 })
@@ -398,14 +415,36 @@ struct PairModel {
 struct Book {
     pm: [PairModel; NPAIRS],
     exact: bool,
+    /// a lookup of this pair has been answered with empty/error
+    nonok: [bool; NPAIRS],
+    /// `stop_managing_paths` has been called for this pair
+    stopped_ever: [bool; NPAIRS],
+    /// configuration in which every successful lookup publishes an active path and no worker
+    /// exits on its own (no idle-out at period 0, expiry threshold below the path lifetime)
+    strict_cfg: bool,
     /// largest number of concurrent first requests seen in one window
     max_concurrent_first: u32,
 }
 
 impl Book {
-    fn new(exact: bool) -> Self {
+    fn new(exact: bool, case: &Case) -> Self {
         let pm = || PairModel { state: PState::Unrequested, window: None, windows_before: 0, spawned_total: 0 };
-        Book { pm: [pm(), pm()], exact, max_concurrent_first: 0 }
+        Book {
+            pm: [pm(), pm()],
+            exact,
+            nonok: [false; NPAIRS],
+            stopped_ever: [false; NPAIRS],
+            strict_cfg: !case.idle_zero && !case.near_expiry,
+            max_concurrent_first: 0,
+        }
+    }
+    /// Result consistency: may a caller of pair p legitimately be released with an ERROR now?
+    /// Without idle-out, without stop and with usable paths, a caller is released either at once
+    /// with the published path or by the completion of a lookup; if every lookup answered so far
+    /// delivered paths, that completion published an active path before it notified. Evaluated at
+    /// the moment the result is OBSERVED: every answer given before the caller returned is included.
+    fn error_allowed(&self, p: usize) -> bool {
+        !self.strict_cfg || self.nonok[p] || self.stopped_ever[p]
     }
     fn before_request(&mut self, p: usize, sh: &Shared) {
         let exact = self.exact;
@@ -455,6 +494,7 @@ impl Book {
         Ok(())
     }
     fn on_stop(&mut self, p: usize) {
+        self.stopped_ever[p] = true;
         self.pm[p].window = None;
         self.pm[p].state = PState::Stopped;
     }
@@ -465,7 +505,10 @@ impl Book {
     }
     /// a gate of pair p has been opened: if that lookup was started inside the window, the first
     /// lookup of the window is finishing
-    fn on_complete(&mut self, p: usize, gate: usize) {
+    fn on_complete(&mut self, p: usize, gate: usize, res: Res) {
+        if !res.has_paths() {
+            self.nonok[p] = true;
+        }
         if let Some(w) = self.pm[p].window {
             if gate >= w.base_gate {
                 self.pm[p].window = None;
@@ -505,7 +548,7 @@ impl Book {
     }
 }
 
-fn validate_result(pair: usize, r: &PathResult, obs: &mut Obs) -> CheckResult {
+fn validate_result(pair: usize, r: &PathResult, error_allowed: bool, obs: &mut Obs) -> CheckResult {
     match r {
         Ok(p) => {
             ensure!(
@@ -516,6 +559,11 @@ fn validate_result(pair: usize, r: &PathResult, obs: &mut Obs) -> CheckResult {
             obs.label("released:path");
         }
         Err(e) => {
+            ensure!(
+                error_allowed,
+                "released-with-error-after-ok-lookups",
+                "caller for pair {pair} was released with the error '{e}' although every lookup answered so far for that pair delivered usable paths, the pair was never stopped and the configuration has no idle-out: the path found by the lookup must be handed out"
+            );
             let s = e.to_string();
             if s.contains("PathSet task exited") {
                 obs.label("released:error-worker-exited");
@@ -624,7 +672,11 @@ impl St<'_> {
             Poll::Ready(r) => {
                 w.fut = None;
                 let pair = w.pair;
-                validate_result(pair, &r, self.obs)?;
+                let allowed = self.book.error_allowed(pair);
+                if !allowed && r.is_ok() {
+                    self.obs.label("consistency:path-required-and-delivered");
+                }
+                validate_result(pair, &r, allowed, self.obs)?;
                 Ok(Some(r))
             }
             Poll::Pending => Ok(None),
@@ -663,7 +715,7 @@ impl St<'_> {
     async fn step(&mut self, a: &Action) -> CheckResult {
         match a {
             Action::New(p) => self.new_waiter(pair_of(*p))?,
-            Action::Burst(p, k) => {
+            Action::Burst(p, k) | Action::Spin(p, k) => {
                 for _ in 0..(*k).clamp(2, 6) {
                     self.new_waiter(pair_of(*p))?;
                 }
@@ -691,7 +743,7 @@ impl St<'_> {
                     let got = mgr.cached_path(w.src, w.dst[p], w.t0);
                     self.book.after_request(p, alive_tasks() - alive0)?;
                     if let Some(path) = got {
-                        validate_result(p, &Ok(path), self.obs)?;
+                        validate_result(p, &Ok(path), true, self.obs)?;
                     }
                 }
             }
@@ -700,7 +752,7 @@ impl St<'_> {
                 if !pend.is_empty() {
                     let g = pend[idx(*i, pend.len())];
                     // bookkeeping first: once the gate is open the worker may run (multi-thread tier)
-                    self.book.on_complete(self.shared.gate_pair(g), g);
+                    self.book.on_complete(self.shared.gate_pair(g), g, *res);
                     self.shared.open(g, *res);
                 }
             }
@@ -752,7 +804,7 @@ async fn run_st(case: &Case, obs: &mut Obs, shared: Arc<Shared>) -> CheckResult 
         mgr: Some(mgr),
         shared: shared.clone(),
         waiters: Vec::new(),
-        book: Book::new(true),
+        book: Book::new(true, case),
         obs,
         nontrivial: false,
         exit_unsettled: [false; NPAIRS],
@@ -778,7 +830,7 @@ async fn run_st(case: &Case, obs: &mut Obs, shared: Arc<Shared>) -> CheckResult 
             // later rounds answer with an error so that continuously refetching configurations
             // come to rest in their failure backoff (>= 60 s, never reached)
             let res = if round == 0 { case.final_res } else { Res::Err };
-            st.book.on_complete(shared.gate_pair(g), g);
+            st.book.on_complete(shared.gate_pair(g), g, res);
             shared.open(g, res);
         }
         st.settle().await?;
@@ -970,13 +1022,14 @@ fn run_st_exhaustive(ctx: &Ctx) {
 // ---------------------------------------------------------------------------------------------
 
 fn res_strategy() -> impl Strategy<Value = Res> {
-    prop_oneof![3 => Just(Res::Ok), 1 => Just(Res::Empty), 2 => Just(Res::Err)]
+    prop_oneof![3 => Just(Res::Ok), 1 => Just(Res::OkMany), 1 => Just(Res::Empty), 2 => Just(Res::Err)]
 }
 
 fn action_strategy() -> impl Strategy<Value = Action> {
     prop_oneof![
         10 => (0u8..2).prop_map(Action::New),
         2 => ((0u8..2), (2u8..=4)).prop_map(|(p, k)| Action::Burst(p, k)),
+        1 => ((0u8..2), (2u8..=3)).prop_map(|(p, k)| Action::Spin(p, k)),
         6 => (0u16..6).prop_map(Action::Poll),
         2 => (0u16..6).prop_map(Action::DropW),
         2 => (0u8..2).prop_map(Action::Cached),
@@ -1001,7 +1054,7 @@ fn cap_waiters(mut acts: Vec<Action>, max_waiters: usize) -> Vec<Action> {
                     n += 1;
                 }
             }
-            Action::Burst(p, k) => {
+            Action::Burst(p, k) | Action::Spin(p, k) => {
                 let k2 = (*k as usize).clamp(2, 6);
                 if n + k2 > max_waiters {
                     *a = if n < max_waiters { n += 1; Action::New(*p) } else { Action::Poll(n as u16) };
@@ -1056,6 +1109,74 @@ struct MtWaiter {
     join: tokio::task::JoinHandle<()>,
     slot: Arc<Mutex<Option<PathResult>>>,
     aborted: bool,
+    validated: bool,
+    /// spinners only: give up
+    stop: Arc<AtomicBool>,
+    /// spinners only: the future has been polled at least once
+    polled: Arc<AtomicBool>,
+}
+
+impl MtWaiter {
+    fn cancel(&mut self) {
+        self.join.abort();
+        self.stop.store(true, Ordering::SeqCst);
+        self.aborted = true;
+    }
+}
+
+/// A caller on its own thread whose executor polls the future in a busy loop (a legal executor:
+/// spurious polls are allowed). It looks at the result as early as any caller possibly can.
+fn mt_spawn_spinner(mgr: &Mgr, p: usize, pre: u32) -> MtWaiter {
+    let w = world();
+    let m = mgr.clone();
+    let (src, dst, now) = (w.src, w.dst[p], w.t0);
+    let slot = Arc::new(Mutex::new(None));
+    let s2 = slot.clone();
+    let stop = Arc::new(AtomicBool::new(false));
+    let polled = Arc::new(AtomicBool::new(false));
+    let (stop2, polled2) = (stop.clone(), polled.clone());
+    let rt = tokio::runtime::Handle::current();
+    let join = tokio::task::spawn_blocking(move || {
+        let _guard = rt.enter();
+        spin(pre);
+        let waker = Waker::from(Arc::new(WakeCount(AtomicUsize::new(0))));
+        let mut cx = Context::from_waker(&waker);
+        let mut fut: Pin<Box<dyn Future<Output = PathResult> + Send>> = Box::pin(async move { m.path(src, dst, now).await });
+        loop {
+            if let Poll::Ready(r) = fut.as_mut().poll(&mut cx) {
+                drop(fut);
+                *s2.lock().unwrap() = Some(r);
+                break;
+            }
+            polled2.store(true, Ordering::SeqCst);
+            if stop2.load(Ordering::Relaxed) {
+                break;
+            }
+            std::hint::spin_loop();
+        }
+        polled2.store(true, Ordering::SeqCst);
+    });
+    MtWaiter { pair: p, join, slot, aborted: false, validated: false, stop, polled }
+}
+
+/// validate the results of the callers that have returned since the last sweep
+fn mt_sweep(waiters: &mut [MtWaiter], book: &Book, obs: &mut Obs) -> CheckResult {
+    for w in waiters.iter_mut() {
+        if w.validated {
+            continue;
+        }
+        // read the flags BEFORE looking at the slot: everything answered before the caller
+        // returned is then included
+        let allowed = book.error_allowed(w.pair);
+        if let Some(r) = w.slot.lock().unwrap().as_ref() {
+            w.validated = true;
+            if !allowed && r.is_ok() {
+                obs.label("consistency:path-required-and-delivered");
+            }
+            validate_result(w.pair, r, allowed, obs)?;
+        }
+    }
+    Ok(())
 }
 
 fn mt_spawn_waiter(mgr: &Mgr, p: usize, pre: u32, barrier: Option<Arc<AtomicUsize>>) -> MtWaiter {
@@ -1078,12 +1199,20 @@ fn mt_spawn_waiter(mgr: &Mgr, p: usize, pre: u32, barrier: Option<Arc<AtomicUsiz
         drop(m);
         *s2.lock().unwrap() = Some(r);
     });
-    MtWaiter { pair: p, join, slot, aborted: false }
+    MtWaiter {
+        pair: p,
+        join,
+        slot,
+        aborted: false,
+        validated: false,
+        stop: Arc::new(AtomicBool::new(false)),
+        polled: Arc::new(AtomicBool::new(true)),
+    }
 }
 
 async fn run_mt(case: &Case, obs: &mut Obs, shared: Arc<Shared>) -> CheckResult {
     let mut mgr = Some(build_manager(case, &shared)?);
-    let mut book = Book::new(false);
+    let mut book = Book::new(false, case);
     let mut waiters: Vec<MtWaiter> = Vec::new();
     let skew = |i: usize| -> u32 { case.skew.get(i).copied().unwrap_or(0) as u32 };
     let mut nontrivial = false;
@@ -1114,13 +1243,31 @@ async fn run_mt(case: &Case, obs: &mut Obs, shared: Arc<Shared>) -> CheckResult 
                     nontrivial = true;
                 }
             }
+            Action::Spin(p, k) => {
+                let p = pair_of(*p);
+                if let Some(m) = mgr.as_ref() {
+                    let k = (*k).clamp(2, 4) as usize;
+                    let first = waiters.len();
+                    for j in 0..k {
+                        book.before_request(p, &shared);
+                        waiters.push(mt_spawn_spinner(m, p, (skew(ai) as usize * j % 512) as u32));
+                    }
+                    // let the spinners reach their first poll (bounded; no oracle depends on it)
+                    let mut guard = 0u32;
+                    while guard < 20_000 && !waiters[first..].iter().all(|w| w.polled.load(Ordering::SeqCst)) {
+                        tokio::task::yield_now().await;
+                        guard += 1;
+                    }
+                    obs.label("mt:spinners");
+                    nontrivial = true;
+                }
+            }
             Action::Poll(_) | Action::Advance(_) => spin(skew(ai)),
             Action::DropW(i) => {
                 let live: Vec<usize> = waiters.iter().enumerate().filter(|(_, w)| !w.aborted && !w.join.is_finished()).map(|(i, _)| i).collect();
                 if !live.is_empty() {
                     let k = live[idx(*i, live.len())];
-                    waiters[k].join.abort();
-                    waiters[k].aborted = true;
+                    waiters[k].cancel();
                 }
             }
             Action::Cached(p) => {
@@ -1129,7 +1276,7 @@ async fn run_mt(case: &Case, obs: &mut Obs, shared: Arc<Shared>) -> CheckResult 
                     let w = world();
                     book.before_request(p, &shared);
                     if let Some(path) = m.cached_path(w.src, w.dst[p], w.t0) {
-                        validate_result(p, &Ok(path), obs)?;
+                        validate_result(p, &Ok(path), true, obs)?;
                     }
                 }
             }
@@ -1137,7 +1284,7 @@ async fn run_mt(case: &Case, obs: &mut Obs, shared: Arc<Shared>) -> CheckResult 
                 let pend = shared.pending_gates();
                 if !pend.is_empty() {
                     let g = pend[idx(*i, pend.len())];
-                    book.on_complete(shared.gate_pair(g), g);
+                    book.on_complete(shared.gate_pair(g), g, *res);
                     shared.open(g, *res);
                 }
             }
@@ -1168,6 +1315,7 @@ async fn run_mt(case: &Case, obs: &mut Obs, shared: Arc<Shared>) -> CheckResult 
             }
         }
         book.check_at_most_one(&shared)?;
+        mt_sweep(&mut waiters, &book, obs)?;
     }
 
     // final: open every gate until no lookup is pending and every waiter task has finished
@@ -1178,7 +1326,7 @@ async fn run_mt(case: &Case, obs: &mut Obs, shared: Arc<Shared>) -> CheckResult 
         let pend = shared.pending_gates();
         for g in &pend {
             let res = if round == 0 { case.final_res } else { Res::Err };
-            book.on_complete(shared.gate_pair(*g), *g);
+            book.on_complete(shared.gate_pair(*g), *g, res);
             shared.open(*g, res);
         }
         if !pend.is_empty() {
@@ -1186,6 +1334,7 @@ async fn run_mt(case: &Case, obs: &mut Obs, shared: Arc<Shared>) -> CheckResult 
             quiet_since = None;
         }
         book.check_at_most_one(&shared)?;
+        mt_sweep(&mut waiters, &book, obs)?;
         let unfinished = waiters.iter().filter(|w| !w.join.is_finished()).count();
         if unfinished == 0 && pend.is_empty() {
             // lookups may still be started by workers that have not run yet: require a short
@@ -1209,15 +1358,11 @@ async fn run_mt(case: &Case, obs: &mut Obs, shared: Arc<Shared>) -> CheckResult 
         tokio::task::yield_now().await;
         tokio::time::sleep(Duration::from_micros(200)).await;
     }
-    for w in &waiters {
-        if let Some(r) = w.slot.lock().unwrap().as_ref() {
-            validate_result(w.pair, r, obs)?;
-        }
-    }
+    mt_sweep(&mut waiters, &book, obs)?;
     // drop: every worker terminates
     drop(mgr.take());
-    for w in &waiters {
-        w.join.abort();
+    for w in &mut waiters {
+        w.cancel();
     }
     let deadline = std::time::Instant::now() + Duration::from_secs(10);
     loop {
@@ -1250,6 +1395,14 @@ async fn run_mt(case: &Case, obs: &mut Obs, shared: Arc<Shared>) -> CheckResult 
     Ok(())
 }
 
+/// Replay of a saved multi-thread case: the schedule is only sampled, so the case is repeated.
+fn check_mt_replay(case: &Case, obs: &mut Obs) -> CheckResult {
+    for _ in 0..40 {
+        check_mt(case, obs)?;
+    }
+    Ok(())
+}
+
 fn check_mt(case: &Case, obs: &mut Obs) -> CheckResult {
     install_hook();
     let _ = world();
@@ -1270,15 +1423,21 @@ fn check_mt(case: &Case, obs: &mut Obs) -> CheckResult {
 
 /// schedules built on purpose for the two races only parallelism can reach
 fn mt_shaped_strategy() -> impl Strategy<Value = Case> {
+    mt_shapes(0, 7)
+}
+
+/// shapes `lo..hi` (0..3 barrier bursts / completion races, 3..7 busy-polling callers)
+fn mt_shapes(lo: u8, hi: u8) -> impl Strategy<Value = Case> {
     (
         prop_oneof![Just(false), Just(true)],
         (0u8..2),
         (2u8..=6),
         proptest::collection::vec(prop_oneof![0u16..300, 0u16..3000, 0u16..30000], 12),
         res_strategy(),
-        0u8..3,
+        lo..hi,
     )
         .prop_map(|(idle_zero, p, k, skew, res, shape)| {
+            let mut idle_zero = idle_zero;
             let actions = match shape {
                 // N first requests released together
                 0 => vec![Action::Burst(p, k), Action::Run(1), Action::Complete(0, res)],
@@ -1294,20 +1453,41 @@ fn mt_shaped_strategy() -> impl Strategy<Value = Case> {
                     Action::New(p),
                 ],
                 // completion, stop and new waiters together
-                _ => vec![Action::New(p), Action::Settle, Action::Complete(0, res), Action::Stop(p), Action::Burst(p, k)],
+                2 => vec![Action::New(p), Action::Settle, Action::Complete(0, res), Action::Stop(p), Action::Burst(p, k)],
+                // callers parked on the pending first lookup look at the result as early as
+                // possible (busy-polling threads and woken tasks) while it completes with paths
+                3 | 4 => {
+                    idle_zero = false;
+                    vec![Action::Spin(p, k), Action::Run(1), Action::Complete(0, Res::OkMany)]
+                }
+                5 => {
+                    idle_zero = false;
+                    vec![Action::Burst(p, k), Action::Spin(p, 2), Action::Run(1), Action::Complete(0, Res::OkMany)]
+                }
+                _ => {
+                    idle_zero = false;
+                    vec![
+                        Action::Spin(p, 3),
+                        Action::Spin(1 - p, 3),
+                        Action::Complete(0, Res::Ok),
+                        Action::Run(1),
+                        Action::Complete(0, Res::OkMany),
+                    ]
+                }
             };
             Case { idle_zero, refetch_zero: false, near_expiry: false, final_res: Res::Ok, skew, actions }
         })
 }
 
 fn run_mt_tier(ctx: &Ctx) {
-    if ctx.tier == vcore::Tier::Quick {
-        return;
-    }
     // fixed work; the override exists only for the sensitivity runs described in notes/C20.md
     let scale = |n: u32| std::env::var("C20_MT_CASES").ok().and_then(|s| s.parse().ok()).unwrap_or(n);
-    ctx.run_prop("mt-shaped", scale(40_000), mt_shaped_strategy, check_mt);
-    ctx.run_prop("mt-random", scale(20_000), || case_strategy(30, true), check_mt);
+    // both tiers: a small sample of the busy-polling shapes (result consistency needs parallelism)
+    ctx.run_prop("mt-spin", scale(ctx.tier.pick(400, 4000)), || mt_shapes(3, 7), check_mt);
+    if ctx.tier == vcore::Tier::Thorough {
+        ctx.run_prop("mt-shaped", scale(40_000), mt_shaped_strategy, check_mt);
+        ctx.run_prop("mt-random", scale(20_000), || case_strategy(30, true), check_mt);
+    }
     for m in MT_INCONCLUSIVE.lock().unwrap().iter().take(5) {
         ctx.inconclusive(m.clone());
     }
@@ -1325,6 +1505,8 @@ fn post(ctx: &Ctx) {
     ctx.require_label("released:error-fetch", 500);
     ctx.require_label("released:error-worker-exited", 100);
     ctx.require_label("waiter-cancelled", 200);
+    ctx.require_label("consistency:path-required-and-delivered", 1000);
+    ctx.require_label("mt:spinners", ctx.tier.pick(200, 2000));
 }
 
 fn main() {
@@ -1338,12 +1520,13 @@ fn main() {
         Sub { name: "st-exhaustive-len7", run: |_| {}, replay: |c, v| c.replay_case::<Case>("st", v, check_st) },
         Sub { name: "st-random-short", run: run_st_random, replay: |c, v| c.replay_case::<Case>("st", v, check_st) },
         Sub { name: "st-random-long", run: |_| {}, replay: |c, v| c.replay_case::<Case>("st", v, check_st) },
-        Sub { name: "mt-shaped", run: run_mt_tier, replay: |c, v| c.replay_case::<Case>("mt", v, check_mt) },
-        Sub { name: "mt-random", run: |_| {}, replay: |c, v| c.replay_case::<Case>("mt", v, check_mt) },
+        Sub { name: "mt-spin", run: |_| {}, replay: |c, v| c.replay_case::<Case>("mt", v, check_mt_replay) },
+        Sub { name: "mt-shaped", run: run_mt_tier, replay: |c, v| c.replay_case::<Case>("mt", v, check_mt_replay) },
+        Sub { name: "mt-random", run: |_| {}, replay: |c, v| c.replay_case::<Case>("mt", v, check_mt_replay) },
     ];
     vcore::main(
         "C20",
-        "cases = schedules (sequences of actions NewWaiter/Burst/Poll/DropWaiter/cached_path/CompleteFetch(ok|empty|error)/RunWorkers(n)/Settle/stop_managing_paths/DropManager/AdvanceClock) x configuration (max_idle_period=0, refetch=0, expiry threshold > path lifetime) over 2 (src,dst) pairs, driven through the public MultiPathManager API with a gated mock PathFetcher on a current_thread runtime with paused clock where one harness yield polls exactly one worker task; exhaustive over an 11-symbol alphabet (1 pair, <=2 waiters) up to length 5 (7 in thorough) x 6 configurations, random up to 6 waiters x 60 actions; thorough adds an 8-thread runtime tier with seeded spin skew (wall-clock bound there => inconclusive). Oracles: after every lookup has finished and the runtime is quiescent each live waiter future has been woken and is Ready (path the fetcher returned for that pair, or error); fetcher invocations between the first request for an unmanaged pair and the completion of its first lookup == 1 (<=1 at every step); after the manager and all callers are dropped no task is alive and the manager state (fetcher) is freed; no panic on runtime threads. Non-trivial = a waiter registers while a lookup for its pair is in flight, or stop/drop races a pending or new waiter.",
+        "cases = schedules (sequences of actions NewWaiter/Burst/Spin/Poll/DropWaiter/cached_path/CompleteFetch(ok 2 paths|ok 32 paths|empty|error)/RunWorkers(n)/Settle/stop_managing_paths/DropManager/AdvanceClock) x configuration (max_idle_period=0, refetch=0, expiry threshold > path lifetime) over 2 (src,dst) pairs, driven through the public MultiPathManager API with a gated mock PathFetcher on a current_thread runtime with paused clock where one harness yield polls exactly one worker task; exhaustive over an 11-symbol alphabet (1 pair, <=2 waiters) up to length 5 (7 in thorough) x 6 configurations, random up to 6 waiters x 60 actions; both tiers add a sample (400 / 4000 cases) of schedules on an 8-thread runtime in which 2-4 callers on own threads busy-poll their parked future while the first lookup completes; thorough adds 60 000 further 8-thread schedules with seeded spin skew (wall-clock bound there => inconclusive). Oracles: after every lookup has finished and the runtime is quiescent each live waiter future has been woken and is Ready (path the fetcher returned for that pair, or error; an ERROR is a violation when every lookup answered so far for that pair delivered paths, the pair was never stopped and the configuration has neither idle-out at period 0 nor an expiry threshold above the path lifetime - evaluated when the result is observed, in both tiers; the multi-thread tier adds callers on own threads that busy-poll their future while the first lookup completes with 32 paths); fetcher invocations between the first request for an unmanaged pair and the completion of its first lookup == 1 (<=1 at every step); after the manager and all callers are dropped no task is alive and the manager state (fetcher) is freed; no panic on runtime threads. Non-trivial = a waiter registers while a lookup for its pair is in flight, or stop/drop races a pending or new waiter.",
         &[
             "the manager reads SystemTime::now() internally: paths are stamped with the process start time and expire 24 h later; all non-zero periods (idle 120 s, backoff >= 60 s, refetch 30 min) are never reached because only tokio's paused clock is advanced (<= 600 s per action) while SystemTime does not move; refetch after a FAILED lookup is therefore not explored",
             "a waiter future owns a clone of the manager (the public API offers no handle that outlives the manager): 'manager dropped' means the harness' handle and later every caller is dropped; PathSetHandle::current_error after drop is not observable through the public API",
